@@ -53,7 +53,7 @@ theorem C13_single_spec (db : DB) (k f owner : Nat) :
     (`a` and `b` of one class, declared from both sides) included -/
 theorem C13_related_symmetric (db : DB) (t a b : Nat) :
     (related db t true a).count b = (related db t false b).count a := by
-  simp only [related, Link.col, Bool.not_true, Bool.not_false, Bool.false_eq_true, if_false, if_true]
+  simp only [related_def, Link.col, Bool.not_true, Bool.not_false, Bool.false_eq_true, if_false, if_true]
   generalize db.links = ls
   induction ls with
   | nil => rfl
@@ -71,14 +71,13 @@ theorem C13_add_spec (db : DB) (t : Nat) (s : Bool) (a b : Nat) (s' : Bool) (o :
     related (addLink db t s a b) t s' o =
       related db t s' o ++ (if s' = s then (if o = a then [b] else []) else (if o = b then [a] else [])) := by
   cases s <;> cases s' <;> by_cases h1 : o = a <;> by_cases h2 : o = b <;>
-    simp [related, addLink, List.filter_append, Link.col, h1, h2, List.filter_cons] <;> grind
+    simp [related_def, addLink_def, List.filter_append, Link.col, h1, h2, List.filter_cons] <;> grind
 
 /-- `remove` from either side deletes every entry of the pair, on both sides, and nothing else -/
 theorem C13_remove_spec (db : DB) (t : Nat) (s : Bool) (a b : Nat) (s' : Bool) (o : Nat) :
     related (removeLink db t s a b) t s' o =
       (related db t s' o).filter fun x => !(if s' = s then (o == a && x == b) else (o == b && x == a)) := by
-  unfold related removeLink
-  simp only [List.filter_filter, List.filter_map]
+  simp only [related_def, removeLink_def, List.filter_filter, List.filter_map]
   congr 1
   apply List.filter_congr
   intro l _
@@ -89,9 +88,8 @@ theorem C13_add_remove_frame (db : DB) (t t' : Nat) (s s' : Bool) (a b o : Nat) 
     related (addLink db t s a b) t' s' o = related db t' s' o ∧
     related (removeLink db t s a b) t' s' o = related db t' s' o := by
   constructor
-  · cases s <;> simp [related, addLink, List.filter_append, Ne.symm h]
-  · unfold related removeLink
-    simp only [List.filter_filter]
+  · cases s <;> simp [related_def, addLink_def, List.filter_append, Ne.symm h]
+  · simp only [related_def, removeLink_def, List.filter_filter]
     congr 1
     apply List.filter_congr
     intro l _
